@@ -188,7 +188,7 @@ def seeded_for(pid: str) -> List[Tuple[str, str]]:
             continue
         with open(mp) as f:
             meta = json.load(f)
-        if pid in (meta.get('detection_now') or {}).get('checks', {}):
+        if pid in (meta.get('detection_now') or {}).get('checks', {}) and not meta.get('superseded'):
             with open(os.path.join(d, 'patch.diff'), encoding='utf-8') as f:
                 out.append((os.path.basename(d), f.read()))
     return out
